@@ -1,5 +1,6 @@
 import SlogModel.Model.Time
 import SlogModel.Model.Parse
+import SlogModel.Model.Frame
 import SlogModel.Gen.Facts
 import Driver.Util
 
@@ -32,6 +33,8 @@ structure DState where
                             maxMsg := Facts.defs_InputLogMaxMessageBytes.getD 0,
                             maxRec := Facts.defs_InputLogMaxRecordBytes.getD 0,
                             minLen := Facts.parse_min_len.getD 0 }
+  frameCfg : Frame.Cfg := { cap := 0, soft := 0 }
+  frame : Frame.St := {}
 
 def unhexAll (hs : List String) : Option (List Bytes) := hs.mapM unhex
 
@@ -55,10 +58,46 @@ def handleParse (st : DState) : List String → DState × String
           (st, s!"pass {hex r.facility} {hex r.level} {hex r.time} {hex r.host} {hex r.app} {hex r.pid} {hex r.source} {hex r.extradata} {hex r.log} {if r.unescaped then 1 else 0} {if ov then 1 else 0}" ++ cs)
   | _ => (st, "bad-op")
 
+def showEmits (o : List Bytes) (s : Frame.St) : String :=
+  s!"emit {",".intercalate (o.map hex)} off {s.offsetSearch} {s.offsetAppend}"
+
+/-- one `Read` call per chunk of at most `cap - offsetAppend` bytes, as the real reader does -/
+partial def frameReadAll (c : Frame.Cfg) (s : Frame.St) (frag : Bytes) (acc : List Bytes) : Option (Frame.St × List Bytes) :=
+  if frag.isEmpty then some (s, acc) else
+  let room := c.cap - s.offsetAppend
+  if room = 0 then none else
+  let (s', o) := Frame.read c Frame.recordStart s (frag.take room)
+  frameReadAll c s' (frag.drop room) (acc ++ o)
+
+def handleFrame (st : DState) : List String → DState × String
+  | ["new", minBuf, soft] =>
+    match minBuf.toNat?, soft.toNat? with
+    | some m, some so => ({ st with frameCfg := { cap := max m (so * 3), soft := so }, frame := {} }, "ok")
+    | _, _ => (st, "bad-op")
+  | ["read", h] =>
+    match unhex h with
+    | none => (st, "bad-op")
+    | some bs =>
+      match frameReadAll st.frameCfg st.frame bs [] with
+      | none => (st, "stuck")
+      | some (s', o) => ({ st with frame := s' }, showEmits o s')
+  | ["flush"] =>
+    let (s', o) := Frame.flush Frame.recordStart st.frame
+    ({ st with frame := s' }, showEmits o s')
+  | ["flushall"] =>
+    let (s', o) := Frame.flushAll Frame.recordStart st.frame
+    ({ st with frame := s' }, showEmits o s')
+  | ["test", h] =>
+    match unhex h with
+    | none => (st, "bad-op")
+    | some bs => (st, if Frame.recordStart bs then "1" else "0")
+  | _ => (st, "bad-op")
+
 def handle (st : DState) (line : String) : DState × String :=
   match fields line with
   | "time" :: rest => (st, handleTime rest)
   | "parse" :: rest => handleParse st rest
+  | "frame" :: rest => handleFrame st rest
   | _ => (st, "bad-op")
 
 partial def loop (hin hout : IO.FS.Stream) (st : DState) : IO Unit := do
